@@ -1,6 +1,7 @@
 package main
 
 import (
+	"sort"
 	"bytes"
 	"encoding/json"
 	"fmt"
@@ -35,6 +36,10 @@ func c18Child(args []string) {
 		os.Exit(65)
 	}
 	s.VerifSetFilename(target)
+	// the state counts as changed (a mapping added and removed again), so that a storage that skips
+	// writing an unmodified state still performs the save under test
+	_ = s.SaveMapping("verif-harness-touch.myco", netip.MustParseAddr("fd00::1"))
+	_ = s.DeleteMapping("verif-harness-touch.myco")
 	if limit >= 0 {
 		// SIGXFSZ may be inherited as ignored (then write just fails with EFBIG): restore the kernel's
 		// default action, which terminates the process at the moment the limit is hit
@@ -149,6 +154,10 @@ func runC18(c *Ctx) error {
 		}
 		pred := filepath.Join(dir, "pred.json")
 		s.VerifSetFilename(pred)
+		// a save that changes nothing (a mapping added and removed again): a storage that skips writing an
+		// unmodified state is within the property, the harness must not depend on it
+		_ = s.SaveMapping("verif-harness-touch.myco", ids[0].IP)
+		_ = s.DeleteMapping("verif-harness-touch.myco")
 		if err := s.Stop(); err != nil {
 			return nil, "", err
 		}
@@ -276,6 +285,72 @@ func runC18(c *Ctx) error {
 		}
 		if hi < 3 {
 			c.Sample(map[string]any{"history": shape, "steps": len(steps)})
+		}
+	}
+	// ---------- sessions: load, use (look routers up, save, delete), stop, reload ----------
+	// what the storage holds when it stops is what the next start loads — every router with its
+	// timestamps (a look-up stamps UsedAt) and every mapping
+	for si, n := 0, c.Pick(24, 120); si < n; si++ {
+		dir := filepath.Join(base, fmt.Sprintf("s%d", si))
+		_ = os.MkdirAll(dir, 0o700)
+		target := filepath.Join(dir, "state.json")
+		st := c18GenState(c, 1+c.Rng.IntN(6), ids)
+		b, _ := json.Marshal(st)
+		if err := os.WriteFile(target, b, 0o600); err != nil {
+			return err
+		}
+		var trace []string
+		for sess, ns := 0, 1+c.Rng.IntN(3); sess < ns; sess++ {
+			s, err := storage.NewJSONFileStorage(target)
+			if err != nil {
+				c.Violate("the router refuses to start on a state file written by a completed save: "+err.Error(), "refuses-to-start", map[string]any{"sessions": trace})
+				break
+			}
+			var ips []netip.Addr
+			for ip := range s.VerifContent().Routers {
+				ips = append(ips, ip)
+			}
+			sort.Slice(ips, func(i, j int) bool { return ips[i].Compare(ips[j]) < 0 })
+			kind := []string{"lookups-only", "lookups-only", "save", "delete", "nothing", "mapping"}[c.Rng.IntN(6)]
+			switch kind {
+			case "lookups-only":
+				for _, ip := range ips {
+					if c.Rng.IntN(2) == 0 {
+						_, _ = s.GetRouter(ip)
+					}
+				}
+				if len(ips) > 0 {
+					_, _ = s.GetRouter(ips[0])
+				}
+			case "save":
+				id := ids[c.Rng.IntN(len(ids))]
+				pa := id.PublicAddress
+				pa.IP = addrFrom(0xfd00_0000_0000_0000|uint64(c.Rng.IntN(1<<30)), uint64(1000+si))
+				_ = s.SaveRouter(&storage.StoredRouter{Address: &pa, Universe: "u", CreatedAt: time.Now().UTC(), UpdatedAt: time.Now().UTC()})
+			case "delete":
+				if len(ips) > 0 {
+					_ = s.DeleteRouter(ips[c.Rng.IntN(len(ips))])
+				}
+			case "mapping":
+				_ = s.SaveMapping(fmt.Sprintf("m%d.myco", sess), ids[0].IP)
+			}
+			want := canonJSON(s.VerifContent())
+			if err := s.Stop(); err != nil {
+				return err
+			}
+			c.Eval()
+			trace = append(trace, kind)
+			c.Count("session:" + kind)
+			c.NonTrivial("session/" + strings.Join(trace, ","))
+			ld, err := storage.NewJSONFileStorage(target)
+			if err != nil {
+				c.Violate("the router refuses to start after a session: "+err.Error(), "refuses-to-start", map[string]any{"sessions": trace})
+				break
+			}
+			if got := canonJSON(ld.VerifContent()); got != want {
+				c.Violate("the state loaded at the next start is not the state the storage held when it stopped (sessions: "+strings.Join(trace, ", ")+")", "roundtrip-session", map[string]any{"sessions": trace})
+				break
+			}
 		}
 	}
 	return nil
